@@ -1,8 +1,10 @@
 #!/bin/sh
-# tools/all_seeds.sh [tier]: applies every kept seeded change to /repo in turn, runs the check of its property,
-# undoes it, and prints one line per seed (exit=1 with violations = caught).
+# tools/all_seeds.sh [tier]: applies every kept seeded change to /repo in turn, runs the check that owns it
+# (meta.json detection.caught_by_check, by default the check of the seed's property), undoes it, and prints one
+# line per seed (exit=1 with violations = caught).
 cd "$(dirname "$0")/.."
 for d in seeded/C*; do
   s=$(basename $d); c=$(echo $s | cut -c1-3)
-  tools/try_seed.sh $s $c ${1:-quick} 2>&1 | head -2 | cut -c1-260
+  by=$(python3 -c "import json,sys; print(json.load(open('$d/meta.json')).get('detection',{}).get('caught_by_check','$c'))" 2>/dev/null || echo $c)
+  tools/try_seed.sh $s $by ${1:-quick} 2>&1 | head -2 | cut -c1-260
 done
